@@ -125,12 +125,17 @@ def stepLine (st : DState) (line : String) : DState × List String :=
       (st, [s!"{h.family} {addrStr h.addr} {bytesToHex b} | {presStr (parse (b ++ rest))} | prefixes={boolStr pre}"])
     | _, _, _, _ => (st, ["bad-op"])
   | ["send", fam] =>
+    -- v46: an IPv4 client accepted on a dual-stack `[::]` listener: the accepted socket
+    -- reports both addresses as v4-mapped IPv6
+    let mapped : List Nat := [0, 0, 0, 0, 0, 0, 0, 0, 0, 0, 255, 255, 127, 0, 0, 1]
     let peer : Option SockAddr :=
       if fam = "v4" then some (.v4 [127, 0, 0, 1] 1111)
-      else if fam = "v6" then some (.v6 [0, 0, 0, 0, 0, 0, 0, 0, 0, 0, 0, 0, 0, 0, 0, 1] 1111) else none
+      else if fam = "v6" then some (.v6 [0, 0, 0, 0, 0, 0, 0, 0, 0, 0, 0, 0, 0, 0, 0, 1] 1111)
+      else if fam = "v46" then some (.v6 mapped 1111) else none
     let loc : Option SockAddr :=
       if fam = "v4" then some (.v4 [127, 0, 0, 1] 2222)
-      else if fam = "v6" then some (.v6 [0, 0, 0, 0, 0, 0, 0, 0, 0, 0, 0, 0, 0, 0, 0, 1] 2222) else none
+      else if fam = "v6" then some (.v6 [0, 0, 0, 0, 0, 0, 0, 0, 0, 0, 0, 0, 0, 0, 0, 1] 2222)
+      else if fam = "v46" then some (.v6 mapped 2222) else none
     match peer, loc with
     | some p, some l =>
       let (_, res, out) := (Send.new p l).run [[.ok 100000]]
